@@ -5,7 +5,7 @@
    corrupt line; an unterminated last line is an error unless it is over-long, over-long
    lines are discarded).  It yields the observable part of the symbol table: the number
    of FUNC and PUBLIC records, and the last INFO URL record. *)
-From RM Require Import C16.Model.
+From RM Require Import C09.Grammar C10.Model C16.Model.
 Open Scope Z_scope.
 
 Definition GIANT : Z := 100000.   (* generated lines are < 4 KiB or > 170 KiB *)
@@ -88,6 +88,35 @@ Definition early_lite (b : bytes) : bool :=
   let '(ls, _) := lines_of b [] in
   match lines_fold GIANT pst0 ls with None => true | Some _ => false end.
 
+(* ---------------------------------------------------------------- the driver's parser instance *)
+(* longest line (or unterminated rest) of the input *)
+Fixpoint max_line (b : bytes) (cur best : Z) : Z :=
+  match b with
+  | [] => Z.max cur best
+  | c :: r => if c =? NL then max_line r 0 (Z.max cur best) else max_line r (cur + 1) best
+  end.
+Definition FUZZY_LO : Z := 60000.    (* below: C09/C10's parse_bytes is what the code answers (all lines < 80 KiB) *)
+Definition FUZZY_HI : Z := 170000.   (* from here on a line is always discarded by the recovery mode *)
+(* 0: every line short; 1: over-long lines, none in the alignment-dependent band; 2: not predicted *)
+Fixpoint fuzzy_line (b : bytes) (cur : Z) : bool :=
+  let hit := (FUZZY_LO <=? cur) && (cur <? FUZZY_HI) in
+  match b with
+  | [] => hit
+  | c :: r => if c =? NL then hit || fuzzy_line r 0 else fuzzy_line r (cur + 1)
+  end.
+Definition line_class (b : bytes) : Z :=
+  if fuzzy_line b 0 then 2 else if max_line b 0 0 <? FUZZY_LO then 0 else 1.
+(* Short-line inputs: the parser model of C09/C10, projected to the observable part of the table.
+   Inputs with over-long lines: the line recogniser above (parse_bytes has no recovery mode). *)
+Definition parse_drv (b : bytes) : option (table * option bytes) :=
+  if max_line b 0 0 <? FUZZY_LO then
+    match parse_bytes b with
+    | Some (t, u) => Some ((Z.of_nat (length (t_funcs t)), Z.of_nat (length (t_publics t))), u)
+    | None => None
+    end
+  else parse_lite b.
+Definition early_drv (b : bytes) : bool := false.
+
 (* ---------------------------------------------------------------- scripts -> events *)
 (* ending of a response as the client sees it: 0 clean end, 1 error/cut/timeout *)
 Definition script_events (status : Z) (no_head : bool) (chunks : list bytes) (ending : Z) : list event :=
@@ -107,7 +136,7 @@ Definition mk_env (mk cr : bool) (wlim : Z) (rm ps : bool) : env :=
 
 Definition lookup (f : fs) (locals : list (option bytes)) (race : option bytes)
            (ss : list server) (evs : list event) : st table :=
-  locate table parse_lite early_lite P0 f locals race ss evs.
+  locate table parse_drv early_drv P0 f locals race ss evs.
 
 (* observables of a state *)
 Definition o_result (s : st table) : Z * (Z * Z) * option bytes :=
